@@ -541,7 +541,9 @@ def sense_case():
         "iterations": st.sampled_from([1, 1, 2, 3]),
         "then": st.sampled_from(["exchange", "listen-exchange",
                                  "sense-empty-exchange",
-                                 "sense-unsupported-exchange"])})
+                                 "sense-unsupported-exchange",
+                                 "listen-unsupported-exchange",
+                                 "listen-invalid-exchange"])})
 
 
 def run_sense(case, ctx):
@@ -619,6 +621,16 @@ def run_sense(case, ctx):
             elif case["then"] == "sense-unsupported-exchange":
                 clf.sense(nfc.clf.RemoteTarget("424F"),
                           nfc.clf.RemoteTarget("212A"))
+            elif case["then"] == "listen-unsupported-exchange":
+                try:        # the driver does not listen as Type B target
+                    clf.listen(nfc.clf.LocalTarget("106B"), 0.01)
+                except nfc.clf.UnsupportedTargetError:
+                    pass
+            elif case["then"] == "listen-invalid-exchange":
+                try:
+                    clf.listen(nfc.clf.LocalTarget("999X"), 0.01)
+                except ValueError:
+                    pass
             if case["then"] != "exchange":
                 n0 = len(dev.names)
                 r = clf.exchange(b"\x30\x00", 0.1)
